@@ -91,7 +91,7 @@ PROPS = {
 
 
 # properties whose theorems speak about model functions that stage 2 of the translator regenerates from the source
-GENLOOPS_PROPS = {'C01', 'C02', 'C03', 'C04', 'C05', 'C06', 'C07', 'C08', 'C09', 'C10', 'C11', 'C13', 'C14'}
+GENLOOPS_PROPS = {'C01', 'C02', 'C03', 'C04', 'C05', 'C06', 'C07', 'C08', 'C09', 'C10', 'C11', 'C13', 'C14', 'C17'}
 
 AUDIT_TEMPLATE = """IMPORTS
 open Lean Elab Command in
@@ -229,8 +229,8 @@ def build_and_audit(pid, tier, log):
         return res
     if uses_loops and not (rc2 != 0 or res['translator2'].get('error')):
         t0 = time.time()
-        rcg, outg = sh(['lake', 'build', 'SSJ.Proofs.GenLoops', 'SSJ.Proofs.GenLoops2'], cwd=LEAN, timeout=1800)
-        log.append('lake build SSJ.Proofs.GenLoops SSJ.Proofs.GenLoops2 rc=%d %.1fs' % (rcg, time.time() - t0))
+        rcg, outg = sh(['lake', 'build', 'SSJ.Proofs.GenLoops', 'SSJ.Proofs.GenLoops2', 'SSJ.Proofs.GenLoops3'], cwd=LEAN, timeout=1800)
+        log.append('lake build SSJ.Proofs.GenLoops{,2,3} rc=%d %.1fs' % (rcg, time.time() - t0))
         if rcg != 0:
             errs = [ln for ln in outg.splitlines() if 'error' in ln][:8]
             broken_build.append({'kind': 'genloops-proof', 'detail': 'generated loop code is no longer provably equal to the hand model: ' + ('\n'.join(errs) or outg[-800:])})
@@ -330,6 +330,11 @@ def match_known(v, known):
             if case.get('entry') == 'join' and 'ValueError' in v.get('what', '') and \
                     '_id' in (str(kw.get('l_out_prefix', 'l_')) + str(case.get('l_key')), str(kw.get('r_out_prefix', 'r_')) + str(case.get('r_key'))):
                 return k
+        elif m.get('kind') == 'levenshtein_mod_256':
+            # py_stringmatching's own Levenshtein disagrees with the true distance on the very pair the violation is about
+            if case.get('py_stringmatching_levenshtein') is not None and case.get('true_levenshtein') != case.get('py_stringmatching_levenshtein') \
+                    and any(ord(ch) > 255 for x in case.get('pair_strings', []) for ch in x):
+                return k
         elif m.get('kind') == 'tiny_threshold':
             t = case.get('threshold')
             if isinstance(t, float) and 0 < t < float(m['below']):
@@ -342,6 +347,23 @@ def mismatch_known(b, known):
     req = b['request']
     for k in known['findings']:
         m = k['match']
+        if m.get('kind') == 'levenshtein_mod_256':
+            # the model's lev is the true Levenshtein distance; the real one is wrong beyond Latin-1
+            strs = []
+            if req.get('op') == 'lev':
+                strs = [req.get('a', ''), req.get('b', '')]
+            elif req.get('op') == 'join' and req.get('which') == 'edit_distance':
+                for tb in ('ltable', 'rtable'):
+                    for row in (req.get(tb) or {}).get('rows', []):
+                        strs += [c['s'] for c in row if isinstance(c, dict) and 's' in c]
+            elif req.get('op') == 'session':
+                for call in req.get('calls', []):
+                    if call.get('which') == 'edit_distance':
+                        for tb in ('ltable', 'rtable'):
+                            for row in (call.get(tb) or {}).get('rows', []):
+                                strs += [c['s'] for c in row if isinstance(c, dict) and 's' in c]
+            if any(ord(ch) > 255 for x in strs for ch in x):
+                return k
         if m.get('kind') == 'converter_series_inplace_numeric' and req.get('op') == 'converter' and req.get('mode') == 'series' \
                 and req.get('inplace') and req.get('dtype') in ('int', 'float') and any(c is not None for c in req.get('values', [])) \
                 and b['real'].get('err') == 'TypeError':
@@ -461,6 +483,18 @@ def dispatch_oracle(O, name, rng, n, stats, props, known_hits):
 
 
 def run_oracles(pid, tier, seed, stats, log, mult=1, known_hits=None):
+    """the independent oracles judge VALID inputs: inputs on which the body of an entry point raises are only injected
+    deliberately (oracle_validation); the generator switch is off for the whole function, extras included"""
+    import suites as S_
+    body_errors0 = S_.BODY_ERRORS
+    S_.BODY_ERRORS = False
+    try:
+        return run_oracles_(pid, tier, seed, stats, log, mult, known_hits)
+    finally:
+        S_.BODY_ERRORS = body_errors0
+
+
+def run_oracles_(pid, tier, seed, stats, log, mult=1, known_hits=None):
     import oracle as O
     cfgp = PROPS[pid]
     props = set(cfgp['oracle_props']) | {'C15x'}
@@ -809,7 +843,7 @@ def main():
                 searched['correspondence_first'] = corr_broken[0]['suite']
         wall = time.time() - t_start
         for k in known_printed.values():
-            print('KNOWN-FINDING: property=%s %s' % (k['property'], k['what']))
+            print('KNOWN-FINDING: property=%s %s%s' % (pid, '' if k['property'] == pid else '(%s of %s) ' % (k['id'], k['property']), k['what']))
         status = 0
         replay = None
         if real_viol:
@@ -841,14 +875,14 @@ def main():
                 'trusted_base': ['Lean 4.33 kernel' + (' + leanchecker re-check' if tier == 'thorough' else ''),
                                  'axioms: propext, Classical.choice, Quot.sound only (audited per theorem this run)',
                                  'tools/py2lean.py + lean/SSJ/Py/{Val,F64}.lean (semantics of the translated subset; validated by suite gen/f64)',
-                                 'tools/py2lean2.py (36 loop functions -> Gen/Loops.lean, Gen/Loops2.lean; idiom table of tools/translator_tests/NOTES.md; its output is proved equal to the hand model in Proofs/GenLoops.lean, GenLoops2.lean)',
+                                 'tools/py2lean2.py (41 loop functions -> Gen/Loops.lean, Loops2.lean, Loops3.lean; idiom table of tools/translator_tests/NOTES.md; its output is proved equal to the hand model in Proofs/GenLoops.lean, GenLoops2.lean, GenLoops3.lean)',
                                  'hand-written model lean/SSJ/Model/*.lean (validated by the correspondence suites of this run)',
                                  'pandas / joblib / py_stringmatching / CPython float semantics are modelled, not verified (DESIGN §8)'],
                 'theorems': b['theorems'], 'axioms': b['axioms'], 'build_cached': b['cached'],
                 'programs': len((b['translator'] or {}).get('functions', [])) + len(t2.get('functions', []) if pid in GENLOOPS_PROPS else []),
                 'translated_functions': (b['translator'] or {}).get('functions', []),
                 'translated_loop_functions': {'used_by_this_property': pid in GENLOOPS_PROPS, 'functions': t2.get('functions', []), 'error': t2.get('error'),
-                                              'equality_with_model': 'lean/SSJ/Proofs/GenLoops.lean + GenLoops2.lean (SSJ.Gen2.*_eq: 36 functions), rebuilt this run' if pid in GENLOOPS_PROPS else None},
+                                              'equality_with_model': 'lean/SSJ/Proofs/GenLoops.lean + GenLoops2.lean (SSJ.Gen2.*_eq: 41 functions), rebuilt this run' if pid in GENLOOPS_PROPS else None},
                 'evaluations': total + sum(p['cases'] for p in per_oracle.values()),
                 'distinct_nontrivial': distinct_nontrivial,
                 'rule': 'correspondence cases are generated from one PRNG (VERIF_SEED); distinct = distinct request JSON; non-trivial = the real code '
